@@ -1203,3 +1203,9 @@ package tsm1
 //@   lock_handoff releases the r.deleteMu that BatchDelete took
 //@ func (*batchDelete).Rollback
 //@   lock_handoff releases the r.deleteMu that BatchDelete took
+
+// The in-memory index of a TSM file: the tombstone map is edited under the index's own mutex while queries and
+// compactions read it (TombstoneRange hands out the stored slices). The offsets table and the mapped bytes are
+// not declared: they are only rewritten by the holder of the reader's deleteMu, which is also the only one that
+// reads them without d.mu (DeleteRange's walk).
+//@ guarded indirectIndex.tombstones by mu
